@@ -59,6 +59,12 @@ add("C10", "exploration",
     "The oracle is the other API (a differential relation); a defect common to both APIs is C01/C03/C13's subject.",
     "DESIGN.md section 4/C10")
 
+add("C11", "exploration",
+    "generated layouts with a position map known by construction; reported spans compared with the map and with the statement's clauses, across all input sources",
+    "Exploration: values are rendered by a layout generator that chooses alternative spellings and inserts generated trivia (all five whitespace bytes, CRLF, comments with non-ASCII text) at every token boundary while recording the byte range of every datum and sub-datum. The datum parser's spans must equal that map exactly, satisfy the containment/order/non-empty/re-parse clauses checked independently of the map, and be identical for &str, &[u8], an unbuffered reader and a BufReader.",
+    "Trusts the layout generator's position map (self-tested; a wrong map shows up as a violation on the unchanged tree, not as silence). Layout text the parser does not read back as the generated value is counted and excluded (that is C12/C13's subject); >2% exclusions make the run inconclusive.",
+    "DESIGN.md section 4/C11")
+
 NOT_YET = {}
 
 def main():
